@@ -109,7 +109,7 @@ def _limits(as_bytes):
     return f
 
 
-def run_space(binary, space, tier, nshards=None, hang_s=30.0, as_bytes=0, env=None, args=(), budget_s=0, max_restarts=200):
+def run_space(binary, space, tier, nshards=None, hang_s=30.0, as_bytes=0, env=None, args=(), budget_s=0, max_restarts=200, max_crashes=6):
     """Run all shards of one space; handles worker death / hangs (DESIGN §2.2)."""
     nshards = nshards or NCPU
     rd = tempfile.mkdtemp(prefix="run_", dir=BUILD)
@@ -117,6 +117,7 @@ def run_space(binary, space, tier, nshards=None, hang_s=30.0, as_bytes=0, env=No
     t0 = time.time()
     e = dict(GOENV)
     e["GOTRACEBACK"] = "all"
+    e["GOMAXPROCS"] = "1"  # one case at a time per worker; parallelism comes from the shards
     if env:
         e.update(env)
 
@@ -158,6 +159,23 @@ def run_space(binary, space, tier, nshards=None, hang_s=30.0, as_bytes=0, env=No
             return None
 
     live = list(ws)
+    crashes = [0]
+
+    def too_many():
+        crashes[0] += 1
+        if crashes[0] >= max_crashes:
+            for x in live:
+                try:
+                    x.p.kill(); x.p.wait()
+                    x.out.close(); x.err.close()
+                except Exception:
+                    pass
+            del live[:]
+            res.complete = False
+            log("[run] %s: %d workers died/hung - stopping the space early (violations are reported; coverage is partial)" % (space, crashes[0]))
+            return True
+        return False
+
     while live:
         time.sleep(0.05)
         for w in list(live):
@@ -174,6 +192,8 @@ def run_space(binary, space, tier, nshards=None, hang_s=30.0, as_bytes=0, env=No
                     res.viol.append(crash_record(binary, space, tier, idx, "hang", "no progress for %.0fs" % hang_s, w.errp, args, e))
                     res.nviol += 1
                     w.restarts += 1
+                    if too_many():
+                        break
                     if w.restarts > max_restarts:
                         res.complete = False
                         live.remove(w)
@@ -186,6 +206,15 @@ def run_space(binary, space, tier, nshards=None, hang_s=30.0, as_bytes=0, env=No
             if rc == 0:
                 live.remove(w)
                 continue
+            if rc == 7 and idx is not None and idx < (1 << 64) - 2:
+                # the worker's own watchdog reported the case in flight (violation line already written) and gave up
+                w.restarts += 1
+                if too_many():
+                    break
+                w.gen += 1
+                w.frm = idx + 1
+                start(w)
+                continue
             if rc == 2 and (idx is None or idx >= (1 << 64) - 2):
                 raise MachineryError("worker %s shard %d exited 2:\n%s" % (space, w.shard, open(w.errp).read()[-3000:]))
             if idx is None or idx >= (1 << 64) - 2:
@@ -193,6 +222,8 @@ def run_space(binary, space, tier, nshards=None, hang_s=30.0, as_bytes=0, env=No
             res.viol.append(crash_record(binary, space, tier, idx, "fatal", "worker died rc=%s" % rc, w.errp, args, e))
             res.nviol += 1
             w.restarts += 1
+            if too_many():
+                break
             if w.restarts > max_restarts:
                 res.complete = False
                 live.remove(w)
@@ -246,18 +277,19 @@ def run_space(binary, space, tier, nshards=None, hang_s=30.0, as_bytes=0, env=No
 def crash_record(binary, space, tier, idx, kind, msg, errp, args, env):
     """A worker died or hung on case idx: re-run the case alone to confirm, and build a signature."""
     try:
-        tail = open(errp, errors="replace").read()[-8000:]
+        full = open(errp, errors="replace").read()
+        tail = full[:3000] + ("\n...\n" + full[-5000:] if len(full) > 3000 else "")
     except Exception:
         tail = ""
     confirmed = 0
     for _ in range(2):
         try:
             r = subprocess.run([binary, "-space", space, "-tier", tier, "-only", str(idx)] + list(args), stdout=subprocess.PIPE, stderr=subprocess.PIPE,
-                               timeout=20, env=env, preexec_fn=_limits(4 << 30))
+                               timeout=6, env=env, preexec_fn=_limits(3 << 30))
             if r.returncode != 0:
                 confirmed += 1
                 if not tail.strip():
-                    tail = r.stderr.decode(errors="replace")[-8000:]
+                    tail = r.stderr.decode(errors="replace")[:8000]
         except subprocess.TimeoutExpired:
             confirmed += 1
     desc = {}
